@@ -94,6 +94,9 @@ func (e *Eval) compile(node ast.Node) error {
 				return err
 			}
 		}
+		if len(node.Elements) > 0xFFFF {
+			return fmt.Errorf("array literal has too many elements: %d", len(node.Elements))
+		}
 		e.emit(code.OpArray, len(node.Elements))
 
 	case *ast.HashLiteral:
@@ -122,6 +125,9 @@ func (e *Eval) compile(node ast.Node) error {
 		}
 
 		// Now the number of key+values we've saved
+		if len(node.Pairs)*2 > 0xFFFF {
+			return fmt.Errorf("hash literal has too many entries: %d", len(node.Pairs))
+		}
 		e.emit(code.OpHash, len(node.Pairs)*2)
 
 	case *ast.ReturnStatement:
@@ -887,6 +893,9 @@ func (e *Eval) compile(node ast.Node) error {
 		e.emit(code.OpConstant, e.addConstant(str))
 
 		// then a call instruction with the number of args.
+		if args > 0xFFFF {
+			return fmt.Errorf("call to %s has too many arguments: %d", node.Function.String(), args)
+		}
 		e.emit(code.OpCall, args)
 
 	case *ast.IndexExpression:
